@@ -7,6 +7,6 @@ From ISAL Require Import Base.Words Base.ListUtil Spec.MD Spec.SHA1 Spec.SHA256 
 Extraction Language OCaml.
 Extraction "Extract/out/Mh.ml"
   mh1_init mh1_update mh1_finalize mh256_init mh256_update mh256_finalize
-  mhm_init mhm_update mhm_finalize
+  mhm_init mhm_update mhm_finalize mh1_tail mh256_tail mhm_tail
   mc_total mc_partial mc_state
   mh_sha1 mh_sha256 murmur3_x64_128 mur_words.
